@@ -174,18 +174,38 @@ def gen_hex(r):
     return "".join("%02X" % r.randrange(256) for _ in range(n))
 
 
+B_EDGES = sorted(set(e + d for e in (-2 ** 31, -2 ** 15, -2 ** 7, 0, 2 ** 7, 2 ** 8, 2 ** 15, 2 ** 16, 2 ** 31, 2 ** 32)
+                      for d in (-2, -1, 0, 1)))
+
+
 def gen_barray(r, canonical):
     """Returns the string form of a valid B value."""
     if chance(r, 0.3):
         vals = [gen_float(r) for _ in range(r.randint(1, 4))]
         return "f," + ",".join(spell_float(r, v, canonical) for v in vals)
+    if chance(r, 0.25):
+        # the largest (and smallest) element sits on a subtype boundary: the written subtype
+        # is decided by exactly these values
+        m = choice(r, [127, 128, 255, 256, 32767, 32768, 65535, 65536, 2 ** 31 - 1, 2 ** 31])
+        vals = [m] + [r.randint(0, min(m, 300)) for _ in range(r.randint(0, 2))]
+        if chance(r, 0.6):
+            neg = [-1, -m, -m - 1, -(m // 2)]
+            vals.append(choice(r, [x for x in neg if x >= -2 ** 31]))
+        r.shuffle(vals)
+        fits = [t for t in "cCsSiI" if G.B_RANGE[t][0] <= min(vals) and max(vals) <= G.B_RANGE[t][1]]
+        if fits:
+            st_ = smallest_subtype(vals) if canonical else choice(r, fits)
+            return st_ + "," + ",".join(str(v) for v in vals)
     st_ = choice(r, "cCsSiI")
     lo, hi = G.B_RANGE[st_]
     vals = []
     for _ in range(r.randint(1, 4)):
-        k = r.randrange(3)
+        k = r.randrange(4)
         if k == 0:
             vals.append(choice(r, [lo, hi, lo + 1, hi - 1, 0]))
+        elif k == 1:
+            # the boundaries of every narrower subtype, +-1: they decide the subtype that is written
+            vals.append(choice(r, [b for b in B_EDGES if lo <= b <= hi]))
         else:
             vals.append(r.randint(max(lo, -300), min(hi, 300)))
     if canonical:
